@@ -531,7 +531,9 @@ func c15Meet() (met bool, detail string, ok bool) {
 		return false, "", false
 	}
 	res := make(chan error, 1)
-	go func() { res <- cliA.Publish(ctx, &mqtt.Message{Topic: "c15/old", QoS: mqtt.QoS1, Payload: []byte("o")}) }()
+	go func() {
+		res <- cliA.Publish(ctx, &mqtt.Message{Topic: "c15/old", QoS: mqtt.QoS1, Payload: []byte("o")})
+	}()
 	in, seen := peer.WaitIn(scen.Watchdog, 1, func(p *mqttref.Packet) bool { return p.Type == mqttref.PUBLISH && p.Topic == "c15/old" })
 	if !seen {
 		return false, "", false
